@@ -1,6 +1,7 @@
 // Driver for C30: the REAL jsonrpc handlers ExecuteActions / SimulateActions over a stub VM whose state is a real
 // merkledb, against the REAL chain.Transaction.Execute on the same state — once with the actions' own key
-// declarations and once with declarations equal to the key sets SimulateActions reported.
+// declarations and once with declarations equal to the key sets SimulateActions reported — and ExecuteActions again
+// with every action declaring exactly the key set reported for it.
 package actionapi
 
 import (
@@ -72,6 +73,7 @@ type Mirror struct {
 	Sim   []SimRes `json:"sim"`
 	Tx    Outs     `json:"tx"`
 	TxSim *Outs    `json:"txSim"`
+	ExSim *Outs    `json:"execSim"` // ExecuteActions, every action declaring the key set simulation reported for it
 }
 
 // ---------------------------------------------------------------------------------- fixed environment
@@ -256,7 +258,7 @@ func run(in *Input) emit.Case {
 	bs := in.actionBytes()
 
 	// (a) ExecuteActions, arguments and reply through their JSON forms
-	{
+	execute := func(bs [][]byte) Outs {
 		var args jsonrpc.ExecuteActionArgs
 		var reply, got jsonrpc.ExecuteActionReply
 		err := guard(func() error {
@@ -268,13 +270,12 @@ func run(in *Input) emit.Case {
 			}
 			return roundTrip(&reply, &got)
 		})
-		switch {
-		case err != nil:
-			m.Exec = Outs{Err: "rpc error: " + err.Error()}
-		default:
-			m.Exec = Outs{Outputs: got.Outputs, OK: got.Error == "", Err: got.Error}
+		if err != nil {
+			return Outs{Err: "rpc error: " + err.Error()}
 		}
+		return Outs{Outputs: got.Outputs, OK: got.Error == "", Err: got.Error}
 	}
+	m.Exec = execute(bs)
 
 	// (b) SimulateActions
 	simInvalid := false
@@ -350,8 +351,16 @@ func run(in *Input) emit.Case {
 		}
 		o := runTx(db, p, in, acts)
 		m.TxSim = &o
+		// (e) ExecuteActions where every action declares exactly the key set simulation reported for it
+		sbs := make([][]byte, len(acts))
+		for i, a := range acts {
+			sbs[i] = a.Bytes()
+		}
+		e := execute(sbs)
+		m.ExSim = &e
 	} else if m.SimOK {
 		m.TxSim = &Outs{Err: "simulation of corrupted action bytes succeeded"}
+		m.ExSim = &Outs{Err: "simulation of corrupted action bytes succeeded"}
 	}
 
 	return emit.Case{Coq: m.coq(), JSON: m, Nontrivial: m.nontrivial(), Kind: m.kind(), Sig: m.sig(simInvalid)}
@@ -410,6 +419,9 @@ func (m *Mirror) sig(simInvalid bool) string {
 			return "simulation-succeeds-touching-undeclarable-key"
 		}
 		return "simulated-keys-insufficient"
+	}
+	if m.SimOK && !(m.ExSim != nil && m.ExSim.OK && eqOuts(m.simOutputs(), m.ExSim.Outputs)) {
+		return "simulated-keys-insufficient-per-action"
 	}
 	return "none"
 }
@@ -566,12 +578,16 @@ func (m *Mirror) coq() string {
 	if m.TxSim != nil {
 		txSim = emit.Some(coqOuts(*m.TxSim))
 	}
+	exSim := "(@None (list (list N) * bool))"
+	if m.ExSim != nil {
+		exSim = emit.Some(coqOuts(*m.ExSim))
+	}
 	return emit.App("mk",
 		emit.Bool(m.Malform == nil),
 		cb([]byte{actor[1]}),
 		emit.List("list N * list N", st),
 		emit.List("list (list N * N) * list sop", acts),
-		coqOuts(m.Exec), sim, coqOuts(m.Tx), txSim)
+		coqOuts(m.Exec), sim, coqOuts(m.Tx), txSim, exSim)
 }
 
 // ---------------------------------------------------------------------------------- generators
